@@ -20,6 +20,7 @@ import (
 	"github.com/aws/aws-sdk-go-v2/service/s3"
 	"github.com/aws/aws-sdk-go-v2/service/s3/types"
 	"github.com/aws/smithy-go"
+	smithyhttp "github.com/aws/smithy-go/transport/http"
 	"github.com/jdillenkofer/pithos/internal/lifecycle"
 	"github.com/jdillenkofer/pithos/internal/sliceutils"
 	"github.com/jdillenkofer/pithos/internal/storage"
@@ -67,7 +68,7 @@ func (rs *s3ClientStorage) CreateBucket(ctx context.Context, bucketName storage.
 		return storage.ErrBucketAlreadyExists
 	}
 	if err != nil {
-		return err
+		return translateS3Error(err)
 	}
 	return nil
 }
@@ -87,7 +88,7 @@ func (rs *s3ClientStorage) DeleteBucket(ctx context.Context, bucketName storage.
 		return storage.ErrBucketNotEmpty
 	}
 	if err != nil {
-		return err
+		return translateS3Error(err)
 	}
 	return nil
 }
@@ -98,7 +99,7 @@ func (rs *s3ClientStorage) ListBuckets(ctx context.Context) ([]storage.Bucket, e
 
 	listBucketsResult, err := rs.s3Client.ListBuckets(ctx, &s3.ListBucketsInput{})
 	if err != nil {
-		return nil, err
+		return nil, translateS3Error(err)
 	}
 	buckets := sliceutils.Map(func(bucket types.Bucket) storage.Bucket {
 		return storage.Bucket{
@@ -121,7 +122,7 @@ func (rs *s3ClientStorage) HeadBucket(ctx context.Context, bucketName storage.Bu
 		return nil, storage.ErrNoSuchBucket
 	}
 	if err != nil {
-		return nil, err
+		return nil, translateS3Error(err)
 	}
 	return &storage.Bucket{
 		Name:         bucketName,
@@ -141,7 +142,7 @@ func (rs *s3ClientStorage) GetBucketVersioningConfiguration(ctx context.Context,
 		return nil, storage.ErrNoSuchBucket
 	}
 	if err != nil {
-		return nil, err
+		return nil, translateS3Error(err)
 	}
 	if result.Status == "" {
 		return &storage.BucketVersioningConfiguration{}, nil
@@ -159,7 +160,7 @@ func (rs *s3ClientStorage) PutBucketVersioningConfiguration(ctx context.Context,
 		status = types.BucketVersioningStatusEnabled
 	}
 	_, err := rs.s3Client.PutBucketVersioning(ctx, &s3.PutBucketVersioningInput{Bucket: aws.String(bucketName.String()), VersioningConfiguration: &types.VersioningConfiguration{Status: status}})
-	return err
+	return translateS3Error(err)
 }
 
 func (rs *s3ClientStorage) GetBucketNotificationConfiguration(ctx context.Context, bucketName storage.BucketName) (*storage.BucketNotificationConfiguration, error) {
@@ -174,7 +175,7 @@ func (rs *s3ClientStorage) GetBucketNotificationConfiguration(ctx context.Contex
 		return nil, storage.ErrNoSuchBucket
 	}
 	if err != nil {
-		return nil, err
+		return nil, translateS3Error(err)
 	}
 
 	config := &storage.BucketNotificationConfiguration{
@@ -252,7 +253,7 @@ func (rs *s3ClientStorage) PutBucketNotificationConfiguration(ctx context.Contex
 		Bucket:                    aws.String(bucketName.String()),
 		NotificationConfiguration: notificationConfiguration,
 	})
-	return err
+	return translateS3Error(err)
 }
 
 func s3EventsToStrings(events []types.Event) []string {
@@ -309,7 +310,7 @@ func (rs *s3ClientStorage) ListObjects(ctx context.Context, bucketName storage.B
 		return nil, storage.ErrNoSuchBucket
 	}
 	if err != nil {
-		return nil, err
+		return nil, translateS3Error(err)
 	}
 	objects := sliceutils.Map(func(object types.Object) storage.Object {
 		// S3 list responses only carry the checksum type and algorithm, not
@@ -350,7 +351,7 @@ func (rs *s3ClientStorage) ListObjectVersions(ctx context.Context, bucketName st
 		MaxKeys:         aws.Int32(opts.MaxKeys),
 	})
 	if err != nil {
-		return nil, err
+		return nil, translateS3Error(err)
 	}
 
 	versions := []storage.ObjectVersion{}
@@ -472,7 +473,7 @@ func (rs *s3ClientStorage) GetObject(ctx context.Context, bucketName storage.Buc
 			for _, r := range readers {
 				r.Close()
 			}
-			return nil, nil, err
+			return nil, nil, translateS3Error(err)
 		}
 		readers = append(readers, getObjectResult.Body)
 	}
@@ -593,7 +594,7 @@ func (rs *s3ClientStorage) PutObject(ctx context.Context, bucketName storage.Buc
 		if errors.As(err, &apiErr) && apiErr.ErrorCode() == "PreconditionFailed" {
 			return nil, storage.ErrPreconditionFailed
 		}
-		return nil, err
+		return nil, translateS3Error(err)
 	}
 
 	return &storage.PutObjectResult{
@@ -629,17 +630,73 @@ func copySourceValue(srcBucket storage.BucketName, srcKey storage.ObjectKey, sou
 	return value
 }
 
-func translateS3CopyError(err error) error {
+// storageErrorsByS3Code maps the error codes of S3 error responses onto the
+// storage errors they stand for (a pithos server renders a storage error with
+// its own name as the error code).
+var storageErrorsByS3Code = map[string]error{
+	"NoSuchBucket":                 storage.ErrNoSuchBucket,
+	"BucketAlreadyExists":          storage.ErrBucketAlreadyExists,
+	"BucketAlreadyOwnedByYou":      storage.ErrBucketAlreadyExists,
+	"BucketNotEmpty":               storage.ErrBucketNotEmpty,
+	"NoSuchKey":                    storage.ErrNoSuchKey,
+	"NoSuchVersion":                storage.ErrNoSuchKey,
+	"BadDigest":                    storage.ErrBadDigest,
+	"InvalidPart":                  storage.ErrInvalidPart,
+	"InvalidPartOrder":             storage.ErrInvalidPartOrder,
+	"EntityTooLarge":               storage.ErrEntityTooLarge,
+	"PreconditionFailed":           storage.ErrPreconditionFailed,
+	"NotModified":                  storage.ErrNotModified,
+	"InvalidRange":                 storage.ErrInvalidRange,
+	"TooManyParts":                 storage.ErrTooManyParts,
+	"InvalidWriteOffset":           storage.ErrInvalidWriteOffset,
+	"InvalidStorageClass":          storage.ErrInvalidStorageClass,
+	"InvalidTag":                   storage.ErrInvalidTag,
+	"MetadataTooLarge":             storage.ErrMetadataTooLarge,
+	"NotImplemented":               storage.ErrNotImplemented,
+	"NoSuchWebsiteConfiguration":   storage.ErrNoSuchWebsiteConfiguration,
+	"NoSuchCORSConfiguration":      storage.ErrNoSuchCORSConfiguration,
+	"NoSuchLifecycleConfiguration": storage.ErrNoSuchLifecycleConfiguration,
+}
+
+// storageErrorFromS3 looks up the storage error an error of the S3 client
+// stands for.
+func storageErrorFromS3(err error) (error, bool) {
+	// Delete markers are answered without a body: the delete-marker header
+	// tells a current delete marker (404) and a named delete-marker version
+	// (405) apart from other failures.
+	var responseError *smithyhttp.ResponseError
+	if errors.As(err, &responseError) && responseError.Response != nil && responseError.Response.Header.Get("x-amz-delete-marker") == "true" {
+		versionID := responseError.Response.Header.Get("x-amz-version-id")
+		switch responseError.HTTPStatusCode() {
+		case http.StatusNotFound:
+			return &storage.CurrentDeleteMarkerError{VersionID: versionID}, true
+		case http.StatusMethodNotAllowed:
+			lastModified, _ := http.ParseTime(responseError.Response.Header.Get("Last-Modified"))
+			return &storage.VersionDeleteMarkerMethodNotAllowedError{VersionID: versionID, LastModified: lastModified}, true
+		}
+	}
 	var apiErr smithy.APIError
 	if errors.As(err, &apiErr) {
-		switch apiErr.ErrorCode() {
-		case "NoSuchBucket":
-			return storage.ErrNoSuchBucket
-		case "NoSuchKey":
-			return storage.ErrNoSuchKey
-		case "PreconditionFailed":
-			return storage.ErrPreconditionFailed
+		if storageErr, ok := storageErrorsByS3Code[apiErr.ErrorCode()]; ok {
+			return storageErr, true
 		}
+	}
+	return nil, false
+}
+
+// translateS3Error maps an error of the S3 client onto the storage error it
+// stands for, so callers see the same error through this backend as from the
+// storage behind the endpoint. Errors without a counterpart are returned as is.
+func translateS3Error(err error) error {
+	if storageErr, ok := storageErrorFromS3(err); ok {
+		return storageErr
+	}
+	return err
+}
+
+func translateS3CopyError(err error) error {
+	if storageErr, ok := storageErrorFromS3(err); ok {
+		return storageErr
 	}
 	var notFoundError *types.NotFound
 	if errors.As(err, &notFoundError) {
@@ -765,7 +822,7 @@ func (rs *s3ClientStorage) DeleteObject(ctx context.Context, bucketName storage.
 		return nil, storage.ErrNoSuchBucket
 	}
 	if err != nil {
-		return nil, err
+		return nil, translateS3Error(err)
 	}
 	return &storage.DeleteObjectResult{VersionID: result.VersionId, IsDeleteMarker: aws.ToBool(result.DeleteMarker)}, nil
 }
@@ -796,7 +853,7 @@ func (rs *s3ClientStorage) DeleteObjects(ctx context.Context, bucketName storage
 		return nil, storage.ErrNoSuchBucket
 	}
 	if err != nil {
-		return nil, err
+		return nil, translateS3Error(err)
 	}
 
 	result := &storage.DeleteObjectsResult{
@@ -864,7 +921,7 @@ func (rs *s3ClientStorage) CreateMultipartUpload(ctx context.Context, bucketName
 		return nil, storage.ErrNoSuchBucket
 	}
 	if err != nil {
-		return nil, err
+		return nil, translateS3Error(err)
 	}
 	return &storage.InitiateMultipartUploadResult{
 		UploadId: storage.MustNewUploadId(*initiateMultipartUploadResult.UploadId),
@@ -897,7 +954,7 @@ func (rs *s3ClientStorage) UploadPart(ctx context.Context, bucketName storage.Bu
 		return nil, storage.ErrNoSuchBucket
 	}
 	if err != nil {
-		return nil, err
+		return nil, translateS3Error(err)
 	}
 	return &storage.UploadPartResult{
 		ETag:              *uploadPartResult.ETag,
@@ -995,7 +1052,7 @@ func (rs *s3ClientStorage) CompleteMultipartUpload(ctx context.Context, bucketNa
 		return nil, storage.ErrNoSuchBucket
 	}
 	if err != nil {
-		return nil, err
+		return nil, translateS3Error(err)
 	}
 	return &storage.CompleteMultipartUploadResult{
 		Location:          *completeMultipartUploadResult.Location,
@@ -1024,7 +1081,7 @@ func (rs *s3ClientStorage) AbortMultipartUpload(ctx context.Context, bucketName 
 		return storage.ErrNoSuchBucket
 	}
 	if err != nil {
-		return err
+		return translateS3Error(err)
 	}
 	return nil
 }
@@ -1046,7 +1103,7 @@ func (rs *s3ClientStorage) ListMultipartUploads(ctx context.Context, bucketName 
 		return nil, storage.ErrNoSuchBucket
 	}
 	if err != nil {
-		return nil, err
+		return nil, translateS3Error(err)
 	}
 
 	uploads := sliceutils.Map(func(upload types.MultipartUpload) storage.Upload {
@@ -1091,7 +1148,7 @@ func (rs *s3ClientStorage) ListParts(ctx context.Context, bucketName storage.Buc
 		return nil, storage.ErrNoSuchBucket
 	}
 	if err != nil {
-		return nil, err
+		return nil, translateS3Error(err)
 	}
 	return &storage.ListPartsResult{
 		BucketName:           storage.MustNewBucketName(*listPartsResult.Bucket),
@@ -1133,7 +1190,7 @@ func (rs *s3ClientStorage) GetBucketWebsiteConfiguration(ctx context.Context, bu
 		return nil, storage.ErrNoSuchBucket
 	}
 	if err != nil {
-		return nil, err
+		return nil, translateS3Error(err)
 	}
 
 	config := &storage.WebsiteConfiguration{}
@@ -1232,7 +1289,7 @@ func (rs *s3ClientStorage) PutBucketWebsiteConfiguration(ctx context.Context, bu
 		return storage.ErrNoSuchBucket
 	}
 	if err != nil {
-		return err
+		return translateS3Error(err)
 	}
 	return nil
 }
@@ -1249,7 +1306,7 @@ func (rs *s3ClientStorage) DeleteBucketWebsiteConfiguration(ctx context.Context,
 		return storage.ErrNoSuchBucket
 	}
 	if err != nil {
-		return err
+		return translateS3Error(err)
 	}
 	return nil
 }
@@ -1269,7 +1326,7 @@ func (rs *s3ClientStorage) GetBucketCORSConfiguration(ctx context.Context, bucke
 		return nil, storage.ErrNoSuchBucket
 	}
 	if err != nil {
-		return nil, err
+		return nil, translateS3Error(err)
 	}
 
 	rules := make([]storage.CORSRule, 0, len(result.CORSRules))
@@ -1324,7 +1381,7 @@ func (rs *s3ClientStorage) PutBucketCORSConfiguration(ctx context.Context, bucke
 		return storage.ErrNoSuchBucket
 	}
 	if err != nil {
-		return err
+		return translateS3Error(err)
 	}
 	return nil
 }
@@ -1341,7 +1398,7 @@ func (rs *s3ClientStorage) DeleteBucketCORSConfiguration(ctx context.Context, bu
 		return storage.ErrNoSuchBucket
 	}
 	if err != nil {
-		return err
+		return translateS3Error(err)
 	}
 	return nil
 }
@@ -1543,7 +1600,7 @@ func (rs *s3ClientStorage) GetBucketLifecycleConfiguration(ctx context.Context, 
 		return nil, storage.ErrNoSuchBucket
 	}
 	if err != nil {
-		return nil, err
+		return nil, translateS3Error(err)
 	}
 
 	rules := make([]storage.LifecycleRule, 0, len(result.Rules))
@@ -1574,7 +1631,7 @@ func (rs *s3ClientStorage) PutBucketLifecycleConfiguration(ctx context.Context, 
 		return storage.ErrNoSuchBucket
 	}
 	if err != nil {
-		return err
+		return translateS3Error(err)
 	}
 	return nil
 }
@@ -1591,7 +1648,7 @@ func (rs *s3ClientStorage) DeleteBucketLifecycleConfiguration(ctx context.Contex
 		return storage.ErrNoSuchBucket
 	}
 	if err != nil {
-		return err
+		return translateS3Error(err)
 	}
 	return nil
 }
@@ -1613,7 +1670,7 @@ func (rs *s3ClientStorage) GetObjectTagging(ctx context.Context, bucketName stor
 		return nil, storage.ErrNoSuchKey
 	}
 	if err != nil {
-		return nil, err
+		return nil, translateS3Error(err)
 	}
 
 	tags := map[string]string{}
@@ -1649,7 +1706,7 @@ func (rs *s3ClientStorage) PutObjectTagging(ctx context.Context, bucketName stor
 		return storage.ErrNoSuchKey
 	}
 	if err != nil {
-		return err
+		return translateS3Error(err)
 	}
 	return nil
 }
@@ -1671,7 +1728,7 @@ func (rs *s3ClientStorage) DeleteObjectTagging(ctx context.Context, bucketName s
 		return storage.ErrNoSuchKey
 	}
 	if err != nil {
-		return err
+		return translateS3Error(err)
 	}
 	return nil
 }
